@@ -102,6 +102,21 @@ def run_seq(acc, rnd, nops, cid):
                 m.append([t, str(rval())])
         return m
 
+    def share_pair(item, sibling):
+        """two different items of one group that carry the same value under the same inner tag (two parties with the same role)"""
+        plain = [(tt, vv) for tt, vv in sibling if not isinstance(vv, list)]
+        if not plain:
+            return
+        tt, vv = rnd.choice(plain)
+        k = m_find(item, tt)
+        if k >= 0:
+            if isinstance(item[k][1], list):
+                return
+            item[k][1] = vv
+        else:
+            item.insert(rnd.randrange(len(item) + 1), [tt, vv])
+        feats.add("shared-inner-value")
+
     is_msg = rnd.random() < 0.5
     root = FIXMessage(rnd.choice(["D", FMsg.EXECUTIONREPORT, "XX"])) if is_msg else FIXContainer()
     model = []
@@ -197,6 +212,8 @@ def run_seq(acc, rnd, nops, cid):
                 continue  # unspecified
             feats.add("group")
             item = ritem(1)
+            if i >= 0 and m[i][1] and rnd.random() < 0.4:
+                share_pair(item, rnd.choice(m[i][1]))
             n = len(m[i][1]) if i >= 0 else 0
             idx = rnd.choice([-1] + list(range(0, n + 1)))
             as_dict = all(not isinstance(v, list) for _, v in item) and rnd.random() < 0.5
@@ -214,7 +231,9 @@ def run_seq(acc, rnd, nops, cid):
                 m[i][1].insert(idx, item)
         elif op == "set_group":
             feats.add("group")
-            items = [ritem(1) for _ in range(rnd.randrange(0, 3))]
+            items = [ritem(1) for _ in range(rnd.randrange(0, 4))]
+            if len(items) >= 2 and rnd.random() < 0.5:
+                share_pair(items[-1], items[0])
             args = [({tagform(tt): vv for tt, vv in it} if all(not isinstance(v, list) for _, v in it) and rnd.random() < 0.5 else build(FIXContainer, it))
                     for it in items]
             got = outcome(lambda: c.set_group(tf, args))
@@ -252,6 +271,9 @@ def run_seq(acc, rnd, nops, cid):
                 plain = [(tt, vv) for it in m[i][1] for tt, vv in it if not isinstance(vv, list)]
                 if plain and rnd.random() < 0.7:
                     gt, gv = rnd.choice(plain)
+                    dup = [p_ for p_ in plain if plain.count(p_) > 1]
+                    if dup and rnd.random() < 0.6:
+                        gt, gv = rnd.choice(dup)      # a value that more than one item carries: the first such item is the answer
                 # judged on the gtag finally used: a plain tag of one item may be a nested group in another item
                 if any(isinstance(vv, list) and tt == gt for it in m[i][1] for tt, vv in it):
                     continue  # gtag names a nested group: unspecified
